@@ -112,7 +112,8 @@ def classify_proposal(held, prop, move_events, tol=1e-9):
     kinds = set()
     if held.shape != prop.shape:
         return kinds
-    scale = 1.0 + float(np.abs(held).max())
+    # tolerances relative to the size of the coordinates (the workload also runs in other length units)
+    scale = max(float(np.abs(held).max()), float(np.abs(prop).max()), 1e-300)
     d = prop - held
     if np.abs(d - d[0]).max() <= tol * scale:
         kinds.add(0)
@@ -120,12 +121,12 @@ def classify_proposal(held, prop, move_events, tol=1e-9):
     if np.abs(c0 - c1).max() <= tol * scale:
         a, b = held - c0, prop - c1
         g0, g1 = a @ a.T, b @ b.T           # Gram matrices: equal iff b = a Q with Q orthogonal
-        if np.abs(g0 - g1).max() <= tol * scale * max(1.0, float(np.abs(g0).max())):
+        if np.abs(g0 - g1).max() <= tol * scale * max(scale, float(np.abs(a).max())):
             proper = True
             if len(held) >= 3:
                 # orientation of the best-fit orthogonal map
                 H = a.T @ b
-                if np.linalg.matrix_rank(H, tol=1e-9) == 3 and np.linalg.det(H) < 0:
+                if np.linalg.matrix_rank(H, tol=1e-9 * max(float(np.abs(H).max()), 1e-300)) == 3 and np.linalg.det(H) < 0:
                     proper = False
             if proper:
                 kinds.add(1)
